@@ -191,13 +191,23 @@ def conformance_part(prop, insts, traces, V, workdir, count):
     import multiprocessing as mp
     import shutil
     byid = {i["id"]: i for i in insts}
-    cand = [t for t in traces if modelled(byid[t["id"]], t) is None and t["summary"]["nev"] <= 2500 and (t["cfg"].get("maxnpt") or 0) <= 7]
+    cand, why = [], {}
+    for t in traces:
+        r = modelled(byid[t["id"]], t)
+        if r is None and t["summary"]["nev"] > 2500:
+            r = "more than 2500 events"
+        if r is None and (t["cfg"].get("maxnpt") or 0) > 7:
+            r = "more than 7 interpolation points"
+        if r is None:
+            cand.append(t)
+        else:
+            why[r] = why.get(r, 0) + 1
     skipped = len(traces) - len(cand)
     step = max(1, len(cand) // max(1, count))
     sel = cand[::step][:count]
     jobs = [(byid[t["id"]], t, os.path.join(workdir, "c%d" % t["id"])) for t in sel]
     if not jobs:
-        return dict(control_conformance=dict(checked=0, accepted=0, rejected=0, outside_model=skipped))
+        return dict(control_conformance=dict(checked=0, accepted=0, rejected=0, outside_model=skipped, outside_model_why=why))
     with mp.get_context("fork").Pool(min(16, vlib.NCPU)) as pool:
         res = pool.map(check_one, jobs, chunksize=1)
     acc = [r for r in res if r.get("accepted")]
@@ -213,7 +223,8 @@ def conformance_part(prop, insts, traces, V, workdir, count):
     for j in jobs:
         shutil.rmtree(j[2], ignore_errors=True)
     errs = [r["skipped"] for r in res if r.get("skipped")]
-    return dict(control_conformance=dict(checked=len(res), accepted=len(acc), rejected=len(rej), machinery_errors=errs[:5], rejected_ids=[r["id"] for r in rej][:10], outside_model=skipped,
+    return dict(control_conformance=dict(checked=len(res), accepted=len(acc), rejected=len(rej), machinery_errors=errs[:5], rejected_ids=[r["id"] for r in rej][:10], outside_model=skipped, outside_model_why=why,
+                                         inside_model_not_sampled=len(cand) - len(sel),
                                          snapshots=sum(r.get("total", 0) for r in acc), tlc_wall_max=round(max([r.get("wall", 0) for r in res] or [0]), 1),
                                          invariants_evaluated=sorted(INVARIANTS)))
 
